@@ -82,7 +82,12 @@ def dfs(run, on_execution, bound=None, max_executions=None):
             costs.append(spent)
             if c != 0:
                 spent += cost
-        for i in range(len(x.choices) - 1, len(prefix) - 1, -1):
+        last = len(x.choices) - 1
+        if isinstance(x.obs, dict) and (x.obs.get("stuck") == "horizon" or x.obs.get("livelock")):
+            # an execution that ran into the step horizon (a loop that never ends) is reported by the caller; its thousands of
+            # points inside the loop are not branched on - only the first few after the prefix
+            last = min(last, len(prefix) + 40)
+        for i in range(last, len(prefix) - 1, -1):
             fan, cost = x.points[i]
             if bound is not None and costs[i] + cost > bound:
                 continue
